@@ -42,6 +42,12 @@ func TestCheckWorkConservation(t *testing.T) {
 		func(t *rapid.T) *sim.World { return sim.GenWorld(t, profileA()) }, sim.JudgeWorkConservation)
 }
 
+// DRA devices through their whole life in one scheduler process (kit/sim/families.go): a device that is free in the
+// API is given to the next pending pod that needs it
+func TestCheckDRALifecycleFamilies(t *testing.T) {
+	sim.CheckProperty(t, "C05", kit.Budget{Quick: 1200, Thorough: 50000}, sim.GenDRALifecycleFamily, sim.JudgeWorkConservation)
+}
+
 func TestCheckDisplacementFamilies(t *testing.T) {
 	sim.CheckProperty(t, "C05", kit.Budget{Quick: 3000, Thorough: 150000}, sim.GenDisplacementFamily, sim.JudgeDisplacement)
 }
@@ -53,7 +59,7 @@ func TestReplay(t *testing.T) {
 			t.Fatalf("bad case: %v", err)
 		}
 		judge := sim.JudgeWorkConservation
-		if w.Family != "" {
+		if w.Family != "" && w.Family != "dra-lifecycle" {
 			judge = sim.JudgeDisplacement
 		}
 		res := kit.ReplayResult{}
